@@ -166,9 +166,9 @@ func main() {
 	}
 	rep := vh.NewReport(a, fmt.Sprintf("part 1: 27 fixed loop shapes (plain loops, if/else bodies, nested calls, loops inside called functions, "+
 		"deferred closures/functions containing the loop, defer statements before and inside the loop, top-level blocks, recursion) + %d PRNG loop bodies; "+
-		"for each shape and EVERY k in 1..%d a fresh interpreter whose compiled hook calls Interp.Interrupt at its k-th call; observed = number of later hook calls, panic class; "+
+		"for each shape and EVERY k in 1..%d the compiled hook calls Interp.Interrupt at its k-th call (one interpreter serves 16 consecutive k, then a fresh one); observed = number of later hook calls, panic class; "+
 		"part 2: %d asynchronous deliveries from another goroutine after a PRNG delay (0..3ms) into 6 call-free tight loops (time bound 5s); "+
-		"after every case the Run record is compared with an idle interpreter's and a 22-evaluation battery with an uninterrupted interpreter holding the same definitions; "+
+		"after every case the Run record is compared with an idle interpreter's; after k<=16, k multiple of 14 or 15, k=71, k=K and after every async case a 22-evaluation battery is compared with an uninterrupted interpreter holding the same definitions; "+
 		"a case is non-trivial when the interrupt was delivered while interpreted code was running (always); distinct by SHA-256 of (shape source, k)", nRandom, K, nAsync))
 	wd := vh.NewWatchdog(rep, 20*time.Second)
 	cw := vh.NewCases(a, "From Coq Require Import List Arith ZArith.\nFrom Verif Require Import C13.Model.\nImport ListNotations.", "case", "mismatches", 700)
@@ -179,6 +179,7 @@ func main() {
 		wantBattery := mkProbe(sh).RunBattery()
 		coqProg := sh.Prog.CoqProg()
 		src := strings.Join(sh.Decls, " ; ") + " ;; " + sh.Form
+		var pr *L.Probe
 		for k := 1; k <= K; k++ {
 			in := caseIn{Shape: sh.Name, Decls: sh.Decls, Form: sh.Form, K: k}
 			wd.Beat(in)
@@ -186,8 +187,15 @@ func main() {
 			fail := func(what string, got, want interface{}) {
 				rep.Fail(vh.Failure{Key: key, What: what, Input: in, Got: got, Want: want})
 			}
-			pr := mkProbe(sh)
-			pr.Runaway = 5000
+			// one interpreter per shape is reused for consecutive k (every interrupted evaluation is then also a
+			// "later evaluation" of the previous ones); a fresh one is taken every 16th k
+			if pr == nil || k%16 == 1 {
+				pr = mkProbe(sh)
+				pr.Runaway = 5000
+			}
+			if sh.Direct {
+				pr.Eval("n = 0")
+			}
 			pr.Arm(k, "interrupt")
 			_, pk := pr.Eval(sh.Form)
 			later, laterD := pr.Later, pr.LaterD
@@ -204,12 +212,15 @@ func main() {
 			if bad := snapProblems(pr.Snapshot()); len(bad) > 0 {
 				fail("Run record not idle after the interrupted evaluation", bad, nil)
 			}
-			got := pr.RunBattery()
-			for i := range got {
-				if got[i] != wantBattery[i] {
-					fail("battery evaluation differs from the uninterrupted interpreter: "+L.Battery[i], got[i], wantBattery[i])
-					break
+			if k <= 16 || k%14 == 0 || k%15 == 0 || k == 71 || k == K {
+				got := pr.RunBattery()
+				for i := range got {
+					if got[i] != wantBattery[i] {
+						fail("battery evaluation differs from the uninterrupted interpreter: "+L.Battery[i], got[i], wantBattery[i])
+						break
+					}
 				}
+				rep.Dist("battery_runs")
 			}
 			// ---- correspondence
 			cw.Add(fmt.Sprintf("mkCase %d %s %s %d %d %s", idx, coqProg, sh.CoqFm, k, later, vh.CoqBool(pk == "interrupt")))
